@@ -511,8 +511,26 @@ class Check(PropCheck):
             elif name in ('style.prop', 'el.getStyle'):
                 s = rng.choice(STYLE_PROPS)
             ops.append([d, name, rng.randrange(max(n, 1)), rng.randrange(40), s])
+        pre = []
+        if rng.random() < 0.4:
+            for _ in range(rng.choice((1, 1, 2, 3))):
+                k = rng.choice(('appendText', 'appendChild', 'setAttribute', 'setAttribute', 'removeAttribute', 'addClass', 'removeChild'))
+                if k == 'appendText':
+                    e = [k, rng.choice(('Z', '', '&amp;'))]
+                elif k == 'appendChild':
+                    e = [k, rng.choice(('em', 'br', 'div'))]
+                elif k == 'setAttribute':
+                    kk = rng.choice(('title', 'id', 'class', 'style', 'data-k', 'name', 'spellcheck'))
+                    e = [k, kk, rng.choice(c17.CLASS_VALUES if kk == 'class' else c17.STYLE_VALUES + c17.ODD_STYLE if kk == 'style' else c17.PLAIN_VALUES)]
+                elif k == 'removeAttribute':
+                    e = [k, rng.choice(('class', 'style', 'id', 'title'))]
+                elif k == 'addClass':
+                    e = [k, rng.choice(('zz', 'a', 'b'))]
+                else:
+                    e = [k, rng.choice((0, 0, 1))]
+                pre.append([rng.randrange(max(n, 1)), e])
         return {'holder': holder, 'idx': [rng.randint(0, 1) for _ in range(4)] if holder == 'indexed' else [1, 1, 1, 1],
-                'attr_idx': attr_idx, 'doctype': doctype, 'tree': tree, 'tree2': tree2, 'ops': ops}
+                'attr_idx': attr_idx, 'doctype': doctype, 'tree': tree, 'tree2': tree2, 'pre': pre, 'ops': ops}
 
     def nontrivial(self, d):
         return len(d['ops']) >= 2 or any(OBS[o[1]][1](0, 0) != ['read', 'none'] for o in d['ops'])
@@ -533,10 +551,18 @@ class Check(PropCheck):
                     fs.append('attr:' + k.lower())
         if d.get('doctype'):
             fs.append('doctype')
+        fs.append('history:%d' % len(d.get('pre', [])))
+        for at, op in d.get('pre', []):
+            fs.append('history:' + op[0])
         return sorted(set(fs))
 
     def shrink(self, d):
         ops = d['ops']
+        pre = d.get('pre', [])
+        for i in range(len(pre)):
+            n = dict(d)
+            n['pre'] = pre[:i] + pre[i + 1:]
+            yield n
         for i in range(len(ops)):
             if len(ops) > 1:
                 n = dict(d)
@@ -555,6 +581,12 @@ class Check(PropCheck):
             n = dict(d)
             n['tree2'] = E('i')
             yield n
+            for v in c17.Check.shrink(self.gen, {'tree': d['tree2'], 'holder': 'plain', 'doctype': None, 'attr_idx': [],
+                                                 'edit': {'side': 'orig', 'at': 0, 'op': ['appendText', 'Z']}}):
+                if v['holder'] == 'plain' and v['tree'] is not d['tree2'] and v['edit']['at'] == 0:
+                    n = dict(d)
+                    n['tree2'] = v['tree']
+                    yield n
 
     # ---- both sides --------------------------------------------------------------------------
     def encode(self, d):
@@ -565,13 +597,22 @@ class Check(PropCheck):
                 ops.append([dd, 'read', 'none'])        # no parser to ask: the observer is skipped
             else:
                 ops.append([dd] + list(OBS[name][1](a, b)))
+        pre = []
+        for at, op in d.get('pre', []):
+            pre.append([at, op[0]] + [str(x) if isinstance(x, int) else enc(x) for x in op[1:]])
         return sx(d['holder'], [1 if x else 0 for x in d['idx']], [enc(a) for a in d.get('attr_idx', [])], opt(d.get('doctype')),
-                  g.enc_tree(d['tree']), g.enc_tree(d['tree2']), ops)
+                  g.enc_tree(d['tree']), g.enc_tree(d['tree2']), pre, ops)
 
     def build(self, d):
-        h0 = build_holder(dict(d, holder=('validating' if d['holder'] == 'validating' else d['holder'])))
+        """both documents; document 0 then gets its history: one full read, then the `pre` edits (no reindex)"""
+        h0 = build_holder(d)
         h1 = build_holder({'holder': 'plain', 'tree': d['tree2'], 'doctype': None, 'idx': [1, 1, 1, 1]})
-        return [h0, h1]
+        docs = [h0, h1]
+        if d.get('pre'):
+            world_sx(docs)
+            for at, op in d['pre']:
+                c17.apply_edit(h0, at, op, reindex=False)
+        return docs
 
     def impl(self, d):
         try:
